@@ -95,6 +95,8 @@ func GenDispatchProgram(t *rapid.T, prof DispatchProfile) *Program {
 			{ID: "K0", Value: "sign-key-0", ValidFrom: -7200, ValidUntil: &until}, // ties with K1 on valid_from
 			{ID: "K3", Value: "sign-key-3", ValidFrom: 7200},
 		}
+		// validity bounds off the whole second: an attempt can fall after a bound and inside the same second
+		spec.SecretFracMS = rapid.SampledFrom([]int{0, 0, 250, 500, 750}).Draw(t, "secret_frac_ms")
 	}
 	if prof.Egress {
 		e := &EgressSpec{}
@@ -257,7 +259,7 @@ func GenDispatchProgram(t *rapid.T, prof DispatchProfile) *Program {
 		p.World = "dispatchcrash"
 	}
 	p.Sys, _ = json.Marshal(sys)
-	p.Offset = rapid.SampledFrom([]int64{0, 500_000_000}).Draw(t, "clock_offset")
+	p.Offset = rapid.SampledFrom([]int64{0, 500_000_000, 700_000_000, 999_999_999, 200_000_000}).Draw(t, "clock_offset")
 	advances := []time.Duration{100 * time.Millisecond, 500 * time.Millisecond, time.Second, 2 * time.Second, 4 * time.Second, 30 * time.Second, 29 * time.Minute, 30 * time.Minute, 59 * time.Minute, time.Hour, 61 * time.Minute}
 	n := rapid.IntRange(2, 25).Draw(t, "nsteps")
 	p.Steps = append(p.Steps, Step{Op: "publish", Batch: 0})
